@@ -19,6 +19,9 @@ search : (TESTING, labelled so) the real expanders, through the in-process harne
          repeated head identifiers (Box<A>/Box<B>, Vec<..>), for all 50 derives, textually identical at byte offsets that
          straddle 100 / 1000 / 10000 / 100000 inside the item and at offset 200000 after other items, expanded with
          `rustc -Zunpretty=expanded`; comparison of the emitted token strings / error texts.
+         (h) items whose own parameter / lifetime / field / const names are names the macros introduce, repeated on one
+         thread after other clashing items; (i) drift: 40 / 100 copies of an item taking an unusual path on one thread,
+         then the probe corpus on that thread vs fresh.
 tie 2  : T-corr of the model's tables: `from_str_groups` / `try_into_groups` (vm_compute) vs the keys and grouped variants the
          real FromStr / TryInto expansions emit, and the real arm order vs a fresh alias table holding the model's keys.
 control: the same keys collected into the crate's alias set and into a std RandomState set (harness cmd hash_probe):
@@ -498,6 +501,92 @@ def rustc_env():
     return deps, os.path.join(deps, rlibs[-1][1])
 
 
+# ------------------------------------------------------------------ names the macros INTRODUCE, used as user names
+
+def introduced_names():
+    """-> (per-file {file: set(names)}, module -> files) read from impl/src: identifiers `__x..` and lifetimes `'__x..`
+    that occur in the sources (templates, format_ident! literals), placeholders filled in, plus the fixed binding names"""
+    import re
+    root = os.path.join(common.REPO, "impl", "src")
+    per_file = {}
+    for d, _, names in os.walk(root):
+        for n in names:
+            if not n.endswith(".rs"):
+                continue
+            src = open(os.path.join(d, n)).read()
+            src = re.sub(r"//[^\n]*", "", src)
+            found = set()
+            for m in re.finditer(r"'?\b__[A-Za-z][A-Za-z0-9_]*(?:\{[a-z_]*\})*(?:[A-Za-z0-9_]*)", src):
+                t = m.group(0)
+                t = re.sub(r"\{(prefix)\}", "l_", t)
+                t = re.sub(r"\{[a-z_]*\}", "0", t) if not t.endswith("DISCRIMINANT_{}") else t.replace("{}", "A")
+                if t.startswith("__DISCRIMINANT_") and t.endswith("_0"):
+                    t = "__DISCRIMINANT_A"
+                found.add(t)
+            for lit in re.findall(r'format_ident!\(\s*"([^"]+)"', src):
+                if "{" in lit and not lit.startswith("{"):
+                    found.add(re.sub(r"\{[a-z_]*\}", "0", lit))
+                elif "{" not in lit:
+                    found.add(lit)
+            rel = os.path.relpath(os.path.join(d, n), root)
+            per_file[rel] = set(x for x in found if re.fullmatch(r"'?[A-Za-z_][A-Za-z0-9_]*", x))
+    return per_file
+
+
+FIXED_INTRODUCED = ["_0", "_1", "_variant", "__0", "__1", "__l_0", "__r_0", "value", "rhs", "src", "request", "other",
+                    "field_0", "__derive_more_f", "__self", "Self_", "T", "U", "Output", "Error", "Target", "Item", "IntoIter"]
+
+
+def clash_items(derive, attr, names, k):
+    """items of `derive` whose OWN parameter / lifetime / field / variant / const names are names the macros introduce"""
+    out = []
+    i = 0
+    for nm in names:
+        i += 1
+        n = "Cl%d_%d" % (k, i)
+        if nm.startswith("'"):
+            out.append("pub struct %s<%s> { value: &%s i32 }" % (n, nm, nm))
+            out.append("pub enum %s<%s> { A(&%s i32), B }" % (n, nm, nm))
+            continue
+        out.append("pub struct %s<%s> { value: %s }" % (n, nm, nm))
+        out.append("pub struct %s<%s>(%s);" % (n, nm, nm))
+        if nm[:1] != "_" or nm.startswith("__"):
+            out.append("pub enum %s<%s> { A(%s), B }" % (n, nm, nm))
+        out.append("pub struct %s { %s: i32 }" % (n, nm))
+        out.append("pub struct %s { %s: i32, other: i32 }" % (n, nm))
+        out.append("pub struct %s<const %s: usize>([u8; %s]);" % (n, nm, nm))
+        if attr:
+            out.append("#[%s(forward)] pub struct %s<%s>(%s);" % (attr, n, nm, nm))
+    return out
+
+
+DRIFT_SHAPES = [
+    # unusual paths through the type / attribute walkers, repeated many times on one thread before the probes
+    ("qself-generic", "pub struct {n}<T: Tr>(<T as Tr>::Out, u32);"),
+    ("qself-generic-named", "pub struct {n}<T: Tr> {{ a: <T as Tr>::Out, b: u32 }}"),
+    ("qself-nested", "pub struct {n}<T: Tr>(Vec<<T as Tr>::Out>, Option<<Vec<T> as Tr>::Out>);"),
+    ("assoc-path", "pub struct {n}<T: Tr>(T::Out, u32);"),
+    ("deep-nesting", "pub struct {n}<T>(" + "Vec<" * 40 + "T" + ">" * 40 + ");"),
+    ("deep-tuple", "pub struct {n}<T>(" + "(" * 20 + "T," + ",)" * 0 + ")" * 20 + ");"),
+    ("fn-pointer", "pub struct {n}<T>(fn(T) -> T, u32);"),
+    ("dyn-trait", "pub struct {n}<T>(Box<dyn Fn(T) -> T>, u32);"),
+    ("impl-macro-type", "pub struct {n}<T>(m!(T), u32);"),
+    ("raw-pointer", "pub struct {n}<T>(*const T, *mut [T; 3], u32);"),
+    ("reference-slice", "pub struct {n}<'a, T>(&'a [T], &'a mut T, u32);"),
+    ("unit-struct", "pub struct {n};"),
+    ("empty-enum", "pub enum {n} {{}}"),
+    ("enum-mixed", "pub enum {n}<T> {{ A(T), B {{ x: <T as Tr>::Out }}, C }}"),
+    ("union", "pub union {n} {{ a: u8, b: u16 }}"),
+    ("bad-attr", "#[{a}(bogus)] pub struct {n}<T>(T);"),
+    ("legacy-fmt", "#[{a}(fmt = \"x{{}}\", _0)] pub struct {n}<T>(T);"),
+    ("many-generics", "pub struct {n}<A, B, C, D, E, F, G, H>(A, B, C, D, E, F, G, H);"),
+    ("fmt-qself", "#[{a}(\"{{_0}} {{_1}}\")] pub struct {n}<T: Tr>(<T as Tr>::Out, u32);"),
+    ("fmt-bound", "#[{a}(bound(T: Tr))] #[{a}(\"{{_0:?}}\")] pub struct {n}<T>(<T as Tr>::Out);"),
+]
+DRIFT_DERIVES = ["Display", "Debug", "LowerHex", "Error", "From", "Into", "AsRef", "Mul", "MulAssign", "Add", "TryInto",
+                 "FromStr", "Deref", "Not", "Sum", "Constructor", "Index", "IntoIterator", "IsVariant", "Unwrap"]
+
+
 def derive_attr_names():
     """derive name -> its first helper attribute, from the create_derive! table of impl/src/lib.rs"""
     import re
@@ -693,7 +782,7 @@ def run(tier, seed, replay):
         chk.proof_failure = {"failed": "tools/lib/c19_hashfacts.py", "output": "%s: %s" % (type(e).__name__, e)}
         st = None
     if facts is not None:
-        st = common.check_proofs(chk, "C19", extra_dirs=("Gen",))
+        st = common.check_proofs(chk, "C19")
         chk.log("facts: %s" % facts["counts"])
         for m in facts["mentions"]:
             chk.bump("mention:%s:%s%s" % (m["name"], m["origin"], ":iterated" if m["iterated"] else ""))
@@ -1084,6 +1173,121 @@ def run(tier, seed, replay):
             if plan and n_bad > len(plan) // 2:
                 chk.violation("harness-crash", {"stage": "real-rustc", "failed": n_bad, "of": len(plan)},
                               "the real-rustc position stage produced no expansion for most items", no_input=True)
+    # (h) INTRODUCED-NAME clashes: items whose own type / const / lifetime parameters, fields or variants carry the names the
+    #     macros introduce (`__RhsT`, `__IdxT`, `__FromT0`, `'__deriveMoreLifetime`, `_0`, `_variant`, ...), each expanded
+    #     alone (own process) and again and again on one thread after 0..n other clashing items
+    n_clash = 0
+    if not replay:
+        attrs = derive_attr_names()
+        per_file = introduced_names()
+        pool = sorted(set().union(*per_file.values()) | set(FIXED_INTRODUCED)) if per_file else list(FIXED_INTRODUCED)
+        mod_files = {"Display": ["fmt/display.rs", "fmt/mod.rs"], "Debug": ["fmt/debug.rs", "fmt/mod.rs"]}
+        feat_file = {"add": ["add_like.rs", "add_helpers.rs"], "add_assign": ["add_assign_like.rs", "add_helpers.rs"],
+                     "mul": ["mul_like.rs", "mul_helpers.rs", "add_like.rs"],
+                     "mul_assign": ["mul_assign_like.rs", "mul_helpers.rs", "add_assign_like.rs"],
+                     "display": ["fmt/display.rs", "fmt/mod.rs"], "debug": ["fmt/debug.rs", "fmt/mod.rs"],
+                     "as_ref": ["as/mod.rs"], "not": ["not_like.rs"], "sum": ["sum_like.rs"]}
+        clash = []          # (class, derive, item)
+        for k, (d, f) in enumerate(table):
+            files = feat_file.get(f, [f + ".rs"]) + ["utils.rs"]
+            own = sorted(set().union(*[per_file.get(x, set()) for x in files[:-1]])) if files else []
+            extra = rng.sample(pool, min(len(pool), 3 if tier == "quick" and not widen else 12))
+            names = list(dict.fromkeys(own + extra))
+            if tier == "quick" and not widen and len(names) > 8:
+                names = own[:5] + extra
+            for it in clash_items(d, attrs.get(d), names, k):
+                clash.append((class_of(d, f), d, it))
+        rqs = [{"derive": d, "item": it, "summary": False} for _, d, it in clash]
+        order1 = list(range(len(rqs)))
+        seq_idx = order1 + order1 + order1[::-1]          # every item three times, 0..n other clashing items in between
+        got = run_seq(binary, [rqs[j] for j in seq_idx], envs[0]["env"], envs[0]["cwd"])
+        from concurrent.futures import ThreadPoolExecutor as _TP3
+        with _TP3(max_workers=16) as ex:
+            alone_c = list(ex.map(lambda q: alone(q["derive"], q["item"]), rqs))
+        if got is None or len(got) != len(seq_idx):
+            chk.violation("harness-crash", {"stage": "introduced-name clashes"}, "the clash history run did not complete")
+        else:
+            first_bad = {}
+            for pos, j in enumerate(seq_idx):
+                n_cmp += 1
+                n_clash += 1
+                if got[pos] != alone_c[j] and j not in first_bad:
+                    first_bad[j] = pos
+            for j, pos in first_bad.items():
+                cls, d, it = clash[j]
+                chk.violation("nondeterministic-across-histories:" + cls,
+                              {"derive": d, "item": it, "output_a": json.dumps(alone_c[j]), "output_b": json.dumps(got[pos]),
+                               "history": "introduced-name clash: the item's own names are names the macro introduces; "
+                                          "occurrence %d on a thread that expanded %d other clashing items before" %
+                                          (1 + sum(1 for q in seq_idx[:pos] if q == j), pos),
+                               "preceding": [{"derive": clash[q][1], "item": clash[q][2]} for q in seq_idx[max(0, pos - 6):pos]]},
+                              "derive(%s) on `%s` (its names clash with names the macro introduces) expands differently alone "
+                              "and after other clashing items" % (d, it[:140]))
+            for (cls, d, it), a in zip(clash, alone_c):
+                chk.bump("clash:%s" % (next(iter(a)) if isinstance(a, dict) and a else "?"))
+                chk.count((d, it, "clash"), isinstance(a, dict) and "ok" in a)
+
+    # (i) DRIFT: state that leaks a little per expansion: N = 40 / 100 copies of an item that takes an unusual path
+    #     (qualified paths, panics caught by catch_unwind, error paths, deep nesting) on one thread, then the whole probe
+    #     corpus on that thread, compared with the probes' expansions on fresh threads of a fresh process
+    n_drift = 0
+    if not replay:
+        attrs = derive_attr_names()
+        probes = []
+        for k, (d, f) in enumerate(table):
+            shapes = list(GENERIC_SHAPES)
+            if d in FMT_DERIVES or d == "Debug":
+                shapes += DISPLAY_SHAPES + ['#[%s("{a} {b}")] struct Pd<T> { a: u32, b: T }' % (attrs.get(d) or d.lower()),
+                                             '#[%s("{_0} {_1:?}")] struct Pe<T, U: Clone>(T, Vec<U>, u64);' % (attrs.get(d) or d.lower())]
+            shapes += collision_shapes(d, attrs.get(d), "Pr%d" % k, "Cause", "Box<Cause>", True)[:3]
+            shapes += collision_shapes(d, attrs.get(d), "Pr%d" % k, "Cause", "Box<Cause>", False)[:2]
+            for it in shapes:
+                probes.append((class_of(d, f), d, it))
+        prq = [{"derive": d, "item": it, "summary": False} for _, d, it in probes]
+        fresh = [parsed(l) for l in run_process(binary, [dict(x, cmd="expand") for x in prq], envs[0]["env"], envs[0]["cwd"])[0]]
+        plans = []
+        dd = [d for d in DRIFT_DERIVES if d in dict(table)]
+        if tier == "quick" and not widen:
+            combos = [(sh, d) for sh in DRIFT_SHAPES for d in rng.sample(dd, 4)]
+        else:
+            combos = [(sh, d) for sh in DRIFT_SHAPES for d in dd]
+        for (sname, tmpl), d in combos:
+            for n_copies in (40, 100):
+                a_ = attrs.get(d) or d.lower()
+                pre = [{"derive": d, "item": tmpl.format(n="Dr%d" % q, a=a_), "summary": False} for q in range(n_copies)]
+                plans.append((sname, d, n_copies, pre))
+
+        def drift_run(pl):
+            sname, d, n_copies, pre = pl
+            got = run_seq(binary, pre + prq, envs[0]["env"], envs[0]["cwd"], timeout=300)
+            return got[len(pre):] if got and len(got) == len(pre) + len(prq) else None
+        from concurrent.futures import ThreadPoolExecutor as _TP4
+        with _TP4(max_workers=16) as ex:
+            drift_out = list(ex.map(drift_run, plans))
+        if len(fresh) != len(prq):
+            chk.violation("harness-crash", {"stage": "drift baseline"}, "the drift baseline run did not complete")
+        else:
+            reported = set()
+            for (sname, d0, n_copies, pre), got in zip(plans, drift_out):
+                chk.bump("drift:" + sname)
+                if got is None:
+                    chk.violation("harness-crash", {"stage": "drift", "shape": sname, "derive": d0},
+                                  "the drift run (%s x %d of derive(%s)) did not complete" % (sname, n_copies, d0))
+                    continue
+                for j, (cls, d, it) in enumerate(probes):
+                    n_cmp += 1
+                    n_drift += 1
+                    if got[j] != fresh[j] and (cls, sname) not in reported:
+                        reported.add((cls, sname))
+                        chk.violation("nondeterministic-across-histories:" + cls,
+                                      {"derive": d, "item": it, "output_a": json.dumps(fresh[j]), "output_b": json.dumps(got[j]),
+                                       "history": "drift: %d expansions of derive(%s) on `%s` on the same thread before" %
+                                                  (n_copies, d0, pre[0]["item"][:120]),
+                                       "preceding": [{"derive": d0, "item": pre[0]["item"], "times": n_copies}]},
+                                      "derive(%s) on `%s` expands differently on a fresh thread and after %d expansions of "
+                                      "derive(%s) on `%s`" % (d, it[:120], n_copies, d0, pre[0]["item"][:100]))
+        chk.count(("drift", len(plans)), True)
+
     # (g) T-corr tie of the MODEL's collection contents with the code: for generated FromStr / TryInto enums the Coq model's
     #     insertion-ordered table (`from_str_groups`, `try_into_groups`, evaluated by vm_compute) must have the same keys
     #     and the same grouped variants as the real expansion emits, and the real arm order must be the order in which
@@ -1206,7 +1410,7 @@ def run(tier, seed, replay):
     extra = {"search_is_testing": True,
              "aslr_randomize_va_space": aslr,
              "environments": [e["desc"] for e in envs],
-             "orders": list(orders), "size_history_comparisons": n_hist, "name_collision_comparisons": n_coll, "diagnostic_history_items": n_diag, "model_tie_items": n_tie, "real_rustc_position_files": pos_files, "real_rustc_copies_compared": n_pos,
+             "orders": list(orders), "size_history_comparisons": n_hist, "name_collision_comparisons": n_coll, "diagnostic_history_items": n_diag, "model_tie_items": n_tie, "introduced_name_clash_comparisons": n_clash, "drift_comparisons": n_drift, "real_rustc_position_files": pos_files, "real_rustc_copies_compared": n_pos,
              "histories": sorted(set(h[0].split(": ", 1)[-1] for h in hist_plan)),
              "controls": {"alias_orders_seen": len(alias_orders), "random_state_orders_seen": len(random_orders),
                           "translator_mutations": [{"mutation": n, "facts_ok": v} for n, v in controls]}}
